@@ -339,10 +339,11 @@ var Prios = []int{0, 1, 7, 50, 999, 1000}
 
 func (g *G) ANP(i int, prio int) ANP {
 	a := ANP{Name: fmt.Sprintf("anp%d", i), Priority: prio, Subject: g.Subject()}
-	for k := g.R.Intn(3); k > 0; k-- {
+	// up to four rules per direction: verdicts that depend on a rule scan going on past unrelated rules need three or more
+	for k := g.R.Intn(5); k > 0; k-- {
 		a.Ingress = append(a.Ingress, g.ARule(fmt.Sprintf("i%d", k), false))
 	}
-	for k := g.R.Intn(3); k > 0; k-- {
+	for k := g.R.Intn(5); k > 0; k-- {
 		a.Egress = append(a.Egress, g.ARule(fmt.Sprintf("e%d", k), false))
 	}
 	return a
@@ -470,10 +471,10 @@ func Gen(r *rand.Rand, o GenOpts) *World {
 	}
 	if o.BANP && r.Intn(2) == 0 {
 		w.Banp = BANP{Nil: false, Name: "default", Subject: g.Subject()}
-		for k := r.Intn(3); k > 0; k-- {
+		for k := r.Intn(5); k > 0; k-- {
 			w.Banp.Ingress = append(w.Banp.Ingress, g.ARule(fmt.Sprintf("bi%d", k), true))
 		}
-		for k := r.Intn(3); k > 0; k-- {
+		for k := r.Intn(5); k > 0; k-- {
 			w.Banp.Egress = append(w.Banp.Egress, g.ARule(fmt.Sprintf("be%d", k), true))
 		}
 	}
